@@ -24,7 +24,7 @@ var c12Space = mkSpace("attribute-query", []fieldDim{
 	{"KeyInfo", []string{"", "no"}},
 	{"Dest", []string{"", "absent", "sso-location", "foreign", "prefixed-advertised", "prefixed-foreign"}},
 	{"Subject", []string{"", "bob", "unknown", "absent"}},
-	{"Attrs", []string{"", "email", "email-nofmt", "email-wrongfmt", "custom", "custom-wrongfmt", "unknown", "email+email", "email+username", "unknown+email", "email+custom+email", "all-unknown", "custom2"}},
+	{"Attrs", []string{"", "email", "email-nofmt", "email-wrongfmt", "custom", "custom-wrongfmt", "unknown", "email+email", "email+username", "unknown+email", "email+custom+email", "all-unknown", "custom2", "collide-fmt+name", "collide-name+fmt", "collide-std-nofmt", "collide-std-noname", "collide-swapped"}},
 	{"User", []string{"", "no-email", "only-username", "no-custom", "two-custom", "custom-novalues", "custom-named-email"}},
 	{"Prefix", []string{"", "default", "odd"}},
 	{"IssuerCfg", []string{"", "host"}},
@@ -259,7 +259,7 @@ func init() { Registry["C12"] = runC12 }
 func runC12(ctx Ctx) int {
 	world.PinClock()
 	run := ev.NewRun("C12")
-	run.Rule = "every assignment of 14 attribute-query dimensions (Issuer, signature none/valid/bit-flipped/edited/foreign key/stripped, Destination variants incl. namespace-prefixed, subject, 13 requested-attribute list shapes incl. duplicates and wrong formats, 7 user-record shapes, serialisation, issuer/endpoint configuration) with <= k deviations (k=3 quick, 4 thorough) plus the full product requested-list x user-record; one execution = fresh provider + one real SOAP request; reply decoded with xt and verified with two independent XML-DSig verifiers"
+	run.Rule = "every assignment of 14 attribute-query dimensions (Issuer, signature none/valid/bit-flipped/edited/foreign key/stripped, Destination variants incl. namespace-prefixed, subject, 18 requested-attribute list shapes incl. duplicates, wrong formats and (Name, NameFormat) pairs whose concatenations collide with an attribute of the user, 7 user-record shapes, serialisation, issuer/endpoint configuration) with <= k deviations (k=3 quick, 4 thorough) plus the full product requested-list x user-record; one execution = fresh provider + one real SOAP request; reply decoded with xt and verified with two independent XML-DSig verifiers"
 	run.Assume = []string{"user data here is plain ASCII except one '&' value; metacharacters in signed data are C04's alphabet (signature clause skipped for such records)"}
 	if ctx.Replay != "" {
 		var p aqP
